@@ -22,8 +22,8 @@ import time
 ROOT = os.path.dirname(os.path.dirname(os.path.abspath(__file__)))
 COQ = os.path.join(ROOT, "coq")
 BUILD = os.path.join(ROOT, ".build")
-HARNESS = os.path.join(ROOT, "harness")
-TARGET = os.path.join(BUILD, "target")
+HARNESS = os.environ.get("VERIF_HARNESS", os.path.join(ROOT, "harness"))     # overridable for tests against a scratch copy
+TARGET = os.environ.get("VERIF_TARGET", os.path.join(BUILD, "target"))
 REPO = os.environ.get("VERIF_REPO", "/repo")
 NPROC = os.cpu_count() or 4
 
